@@ -606,6 +606,9 @@ impl Core {
     ) -> Result<(), String> {
         if let Some(rules_engine) = &context.settings.rules_engine {
             if let Some(ip) = client_ip {
+                // A dual-stack listener reports an IPv4 peer as `::ffff:a.b.c.d`:
+                // match the rules against the peer's actual address
+                let ip = ip.to_canonical();
                 let rule_result = rules_engine.evaluate(&ip, client_random);
                 match rule_result {
                     rules::RuleEvaluation::Deny => {
